@@ -104,6 +104,29 @@ theorem refill_stable_iff (b : Buf) (nmin : Nat) (hnp : pinned b = false) (hp : 
       · rw [if_neg h3, hg1]
         exact ⟨fun _ => Or.inr (Or.inr (Or.inr (by omega))), fun _ => rfl⟩
 
+/-- without `bf->stable` the repaired `buffer_refill` is the old one -/
+theorem refill_eq_refill0 (b : Buf) (nmin : Nat) (hnp : b.stab = false) : refill b nmin = refill0 b nmin := by
+  have hp : pinned b = false := by unfold pinned; rw [hnp]; exact Bool.and_false _
+  unfold refill refill0
+  have hs : shiftLeft b = shiftLeft0 b := by unfold shiftLeft; rw [if_neg (by rw [hp]; decide)]
+  have hst : ∀ b1, shiftLeft0 b = some b1 → b1.stab = false := by
+    intro b1 h1
+    unfold shiftLeft0 at h1
+    split at h1
+    · cases ha : b.anchor with
+      | none => rw [ha] at h1; cases h1; exact hnp
+      | some a =>
+        rw [ha] at h1; dsimp only at h1
+        split at h1 <;> (cases h1; exact hnp)
+    · cases h1; exact hnp
+  rw [hs]
+  cases hsl : shiftLeft0 b with
+  | none => rfl
+  | some b1 =>
+    have hg : grow b1 = grow0 b1 := by
+      unfold grow pinned; rw [hst b1 hsl, Bool.and_false]; rfl
+    simp only [hg]
+
 /-- **A plain anchor does not promise pointer validity**: when a refill has to shift (no room for a page behind the loaded
     bytes, cursor not at the window start), everything from the anchor on is kept but *moved* to the window start — every
     pointer handed out since the anchor was set dangles. (That is the documented difference between `SetAnchor` and
